@@ -90,6 +90,34 @@ async def run(ctx):
         ctx.count("token_sequences")
         if i % 300 == 0:
             ctx.sample({"tokens": "".join(toks), "variants": variants[1:], "reference": S.show_ref(refs[0])}, cls="random")
+    # ---- the same composite term more than once in one expression (equal sub-trees next to / below each other) ------------------
+    for i in range(ctx.budget(150, 15_000)):
+        term = G.gen_tokens(rng, max_items=rng.randint(2, 3), depth=rng.randint(0, 1))
+        other = G.gen_tokens(rng, max_items=rng.randint(1, 2), depth=0)
+        ops = [rng.choice(G.AND_SP + G.OR_SP + G.XOR_SP + [""]) for _ in range(3)]
+
+        def operand(toks):
+            return ["("] + toks + [")"] if rng.random() < 0.5 else list(toks)
+
+        def join(parts):
+            out = []
+            for n, part in enumerate(parts):
+                if n and ops[n - 1]:
+                    out.append(ops[n - 1])
+                out += part
+            return out
+
+        shape = i % 4
+        if shape == 0:
+            toks = join([operand(term), operand(term)])
+        elif shape == 1:
+            toks = join([operand(term), operand(other), operand(term)])
+        elif shape == 2:
+            toks = join([operand(term), ["("] + join([operand(other), operand(term)]) + [")"]])
+        else:
+            toks = join([operand(term), operand(term), operand(term)])
+        check_string(ctx, G.join_tokens(toks, rng if i % 2 else None), "repeated-terms")
+        ctx.count("expressions_with_a_repeated_term")
     # ---- all orderings of the four operator levels in chains, every spelling ------------------------------------------------
     lengths = (4, 5) if ctx.quick else (4, 5, 6, 7, 8)
     spell_sets = list(product(G.AND_SP, G.OR_SP, G.XOR_SP))
